@@ -295,3 +295,17 @@ Proof.
            C05_Bits.relabel_hand_size).
 Qed.
 Print Assumptions C06_iso_one_per_class.
+
+(* the pre-flop street enumerated outright: filtering the 1326 (short deck: 630) observations by
+   is_canonical leaves 169 (81) of them, the published constant N_ISOMORPHISMS[0] of each deck
+   (= burnside d 0, C06_burnside_counts).  By computation over the whole street.
+   (The flop -- 25,989,600 observations, 3,769,920 in the short deck -- is out of reach of
+   vm_compute at roughly 0.7 ms per observation; for the later streets the count is tied to the
+   constant only through C06_iso_one_per_class and Burnside's formula.) *)
+Theorem C06_preflop_classes :
+  length (iso_filter Standard (spec_obs Standard 0)) = 169%nat /\
+  length (iso_filter Short (spec_obs Short 0)) = 81%nat /\
+  nth_error N_ISOMORPHISMS_STD 0 = Some (Some (Z.of_nat (length (iso_filter Standard (spec_obs Standard 0))))) /\
+  nth_error N_ISOMORPHISMS_SHORT 0 = Some (Some (Z.of_nat (length (iso_filter Short (spec_obs Short 0))))).
+Proof. repeat split; vm_compute; reflexivity. Qed.
+Print Assumptions C06_preflop_classes.
